@@ -48,7 +48,9 @@ def dump_items(items):
     return out
 
 
-def build_items(spec, rng_choice=None):
+def build_items(spec, rng_choice=None, helpers=False):
+    """`helpers`: build each item through the convenience functions of rsocket/extensions/helpers.py where its content can be passed that way"""
+    from rsocket.extensions import helpers as HP
     from rsocket.extensions.routing import RoutingMetadata
     from rsocket.extensions.stream_data_mimetype import StreamDataMimetype, StreamDataMimetypes
     from rsocket.extensions.authentication_content import AuthenticationContent
@@ -62,9 +64,33 @@ def build_items(spec, rng_choice=None):
         if as_enum and b in by_name:
             return by_name[b]
         return b
+    def text(h):
+        try:
+            return bytes.fromhex(h).decode('utf-8')
+        except UnicodeDecodeError:
+            return None
     items = []
     for s in spec:
         k = s['k']
+        if helpers:
+            if k == 'raw':
+                items.append(HP.metadata_item(bytes.fromhex(s['c']), mime(s['m'], s.get('enum'))))
+                continue
+            if k == 'route' and all(text(t) is not None for t in s['tags']):
+                items.append(HP.route(*[text(t) for t in s['tags']]))
+                continue
+            if k == 'mime':
+                items.append(HP.data_mime_type(mime(s['m'], s.get('enum'))))
+                continue
+            if k == 'accept':
+                items.append(HP.data_mime_types(*[mime(m, s.get('enum')) for m in s['ms']]))
+                continue
+            if k == 'simple' and text(s['u']) is not None and text(s['p']) is not None:
+                items.append(HP.authenticate_simple(text(s['u']), text(s['p'])))
+                continue
+            if k == 'bearer' and text(s['t']) is not None:
+                items.append(HP.authenticate_bearer(text(s['t'])))
+                continue
         if k == 'raw':
             items.append(CompositeMetadataItem(mime(s['m'], s.get('enum')), bytes.fromhex(s['c'])))
         elif k == 'route':
@@ -133,7 +159,7 @@ class C18(Prop):
             items = [{'k': 'mime', 'm': name.hex(), 'enum': True}, {'k': 'accept', 'ms': [name.hex(), name.hex()], 'enum': False}]
             if name not in special:
                 items.append({'k': 'raw', 'm': name.hex(), 'c': '01', 'enum': False})
-            out.append({'kind': 'enc', 'items': items})
+            out.append({'kind': 'enc', 'items': items, 'helpers': rng.random() < 0.35})
         n = 4000 if tier == 'quick' else 120000
         for _ in range(n):
             bad = rng.random() < 0.12
@@ -159,7 +185,7 @@ class C18(Prop):
                                   'p': bytes(rng.getrandbits(8) for _ in range(rng.choice([0, 1, 8, 70]))).hex()})
                 else:
                     items.append({'k': 'bearer', 't': bytes(rng.getrandbits(8) for _ in range(rng.choice([0, 1, 30, 300]))).hex()})
-            out.append({'kind': 'enc', 'items': items})
+            out.append({'kind': 'enc', 'items': items, 'helpers': rng.random() < 0.35})
         for _ in range(n // 2):
             c = rng.choice(out[len(table):])
             try:
@@ -181,8 +207,11 @@ class C18(Prop):
         return out
 
     @staticmethod
-    def _encode(items):
+    def _encode(items, helpers=False):
         from rsocket.extensions.composite_metadata import CompositeMetadata
+        if helpers:
+            from rsocket.extensions.helpers import composite
+            return composite(*build_items(items, helpers=True))
         return CompositeMetadata(build_items(items)).serialize()
 
     def run_impl(self, case):
@@ -190,7 +219,7 @@ class C18(Prop):
         from rsocket.exceptions import RSocketMimetypeTooLong, RSocketError
         if case['kind'] == 'enc':
             try:
-                blob = bytes(self._encode(case['items']))
+                blob = bytes(self._encode(case['items'], case.get('helpers', False)))
             except RSocketMimetypeTooLong:
                 return {'enc': 'ERR', 'why': 'mime-too-long'}
             except RSocketError as e:
